@@ -367,19 +367,24 @@ func (c *Conn) Quiesce() []byte {
 		return nil
 	}
 	extra := func(pending []byte) bool {
-		if c.Sess == nil {
-			// the session is not known before the greeting was seen; no idling possible yet
+		s := c.Sess
+		if s == nil {
+			// the session is not known before the greeting was seen
 			c.W.mu.Lock()
-			s := c.W.cur
+			s = c.W.cur
 			c.W.mu.Unlock()
 			if s == nil {
 				return true
 			}
-			_, ready, _ := s.IdleCounts()
-			return c.countIdling(pending) <= int(ready)
 		}
-		_, ready, _ := c.Sess.IdleCounts()
-		return c.countIdling(pending) <= int(ready)
+		_, ready, _ := s.IdleCounts()
+		if c.countIdling(pending) <= int(ready) {
+			return true
+		}
+		// "+ idling" was written but no idle goroutine reported yet: wait for it, unless the command
+		// has already been completed (a server that says "+ idling" and then refuses the command
+		// never starts one)
+		return c.idleCommandOver(pending)
 	}
 	out, closed, err := c.P.QuiesceWithin(c.W.Watchdog, extra)
 	if err != nil {
@@ -393,6 +398,28 @@ func (c *Conn) Quiesce() []byte {
 		c.Closed = true
 	}
 	return out
+}
+
+// idleCommandOver: after the last "+ idling" line the output already contains a tagged response.
+func (c *Conn) idleCommandOver(pending []byte) bool {
+	all := append(append([]byte{}, c.Out...), pending...)
+	i := bytes.LastIndex(all, idlingLine)
+	if i < 0 {
+		return true
+	}
+	rest := all[i+len(idlingLine):]
+	for len(rest) > 0 {
+		j := bytes.Index(rest, []byte("\r\n"))
+		if j < 0 {
+			break
+		}
+		line := rest[:j]
+		rest = rest[j+2:]
+		if !bytes.HasPrefix(line, []byte("* ")) && !bytes.HasPrefix(line, []byte("+ ")) {
+			return true
+		}
+	}
+	return false
 }
 
 func (c *Conn) countIdling(pending []byte) int {
@@ -478,7 +505,7 @@ func (c *Conn) Finish(reset bool) End {
 				break
 			}
 			if time.Now().After(deadline) {
-				c.Hang = "connection still listed in Server.conns after its socket was closed (serve goroutine not finished)"
+				c.Hang = "connection still listed in Server.conns after its socket was closed (serve goroutine not finished, or the entry is never removed)"
 				break
 			}
 			if spin < 200 {
